@@ -237,7 +237,7 @@ def finding_matches(entry, m):
         allowed = {i.lower() for i in mt.get("ids", [])}
         return bool(ids) and ids <= allowed and ("+" in blob or "-or-later" in blob.lower())
     if kind == "table-invariant":
-        return m.get("what") == mt.get("invariant") and set(m.get("ids", [])) <= set(mt.get("ids", []))
+        return m.get("what") in mt.get("invariants", []) and set(m.get("list") or []) <= set(mt.get("ids", []))
     if kind == "cost-family":
         return m.get("family") == mt.get("family")
     if kind == "exact-input":
@@ -260,6 +260,10 @@ def finish(ctx, relevant, level="model_checking", extra_cov=None, rule=None):
             knownhits.setdefault(hit["id"], []).append(m)
         else:
             viol.append(m)
+    if os.environ.get("VERIF_DEBUG"):
+        import collections
+        log("mismatch summary:", dict(collections.Counter((m["what"], m.get("source")) for m in ctx.mismatches)))
+        log("violations:", len(viol), "foreign:", len(foreign), "known:", {k: len(v) for k, v in knownhits.items()})
     rdir = os.path.join(VERIF, "replays", ctx.prop)
     lines = []
     seen = set()
